@@ -80,6 +80,23 @@ Proof.
   destruct (N.ltb_spec i w), (N.ltb_spec i w0), (N.leb_spec w0 i); try reflexivity; lia.
 Qed.
 
+Lemma lor_lt a b w : a < 2 ^ w -> b < 2 ^ w -> N.lor a b < 2 ^ w.
+Proof.
+  intros Ha Hb. apply lt_pow2_of_bits. intros i Hi.
+  rewrite N.lor_spec, (tb_lt a w i), (tb_lt b w i) by assumption. reflexivity.
+Qed.
+Lemma land_lt_l a b w : a < 2 ^ w -> N.land a b < 2 ^ w.
+Proof.
+  intros Ha. apply lt_pow2_of_bits. intros i Hi.
+  rewrite N.land_spec, (tb_lt a w i) by assumption. reflexivity.
+Qed.
+Lemma land_lt_r a b w : b < 2 ^ w -> N.land a b < 2 ^ w.
+Proof. intros. rewrite N.land_comm. apply land_lt_l; assumption. Qed.
+Lemma lxor_lt a b w : a < 2 ^ w -> b < 2 ^ w -> N.lxor a b < 2 ^ w.
+Proof.
+  intros Ha Hb. apply lt_pow2_of_bits. intros i Hi.
+  rewrite N.lxor_spec, (tb_lt a w i), (tb_lt b w i) by assumption. reflexivity.
+Qed.
 Lemma mul_pow2_mod_0 a s w : w <= s -> (a * 2 ^ s) mod 2 ^ w = 0.
 Proof.
   intros. replace s with ((s - w) + w) by lia. rewrite N.pow_add_r, N.mul_assoc.
